@@ -123,6 +123,9 @@ pub fn check(id: &str, tier: Tier) -> i32 {
     let (b2, b3) = if thorough { (4, 3) } else { (3, 2) };
     for fl in [Fl::Optimistic, Fl::Pessimistic] {
       for shape in [3u8, 0] {
+        if id == "C12" && !thorough && (shape == 0 || fl == Fl::Pessimistic) {
+          continue;
+        }
         for i in 0..menu.len() {
           for j in i..menu.len() {
             items.push((Harness { fl, unify: true, min_seg: 8, cap: 256, shape, progs: vec![menu[i].clone(), menu[j].clone()], own_arenas: true, leave: 0, odd: 0 }, b2));
@@ -155,11 +158,12 @@ pub fn check(id: &str, tier: Tier) -> i32 {
       ]
     } else {
       vec![
-        (2, 3, with_none.clone(), vec![(true, 256, 8)], vec![3, 1, 0, 7, 11]),
-        (2, 3, lists.clone(), vec![(false, 225, 8)], vec![3, 11]),
+        (2, 3, with_none.clone(), vec![(true, 256, 8)], vec![3, 1, 7, 11]),
+        (2, 2, lists.clone(), vec![(true, 256, 8)], vec![0]),
+        (2, 3, lists.clone(), vec![(false, 225, 8)], vec![3]),
         (2, 3, lists.clone(), vec![(true, 256, 0)], vec![3]),
-        (3, 2, lists.clone(), vec![(true, 256, 8)], vec![3, 1, 11]),
-        (4, 1, lists.clone(), vec![(true, 256, 8)], vec![3, 11]),
+        (3, 2, lists.clone(), vec![(true, 256, 8)], vec![3, 11]),
+        (4, 1, lists.clone(), vec![(true, 256, 8)], vec![3]),
       ]
     };
     for (nt, bound, fls, layouts, shapes) in &passes {
@@ -236,7 +240,7 @@ pub fn check(id: &str, tier: Tier) -> i32 {
   }
   run.set("harnesses", json!(items.len()));
   run.set("bounds", json!({"preemption_bounds_completed": bounds, "event_cap_per_execution": EVENT_CAP, "solo_budget": SOLO_BUDGET, "max_events_of_one_operation": maxop.load(Ordering::Relaxed)}));
-  run.rule("every schedule (switch points = the arena's atomic accesses and Backoff::snooze) with at most the stated number of preemptions, for every harness = (free-list kind, layout, initial free-list shape, program tuple up to thread symmetry); evaluations = schedules executed on the real sync::Arena; transitions = scheduling events; states = distinct (memory image, header, per-thread progress, running thread) at scheduling points; non-trivial = at least one switch inside an operation, distinct by (harness, final image)");
+  run.rule("every schedule (switch points = the arena's atomic accesses and Backoff::snooze) with at most the stated number of preemptions, for every harness = (free-list kind, layout, initial free-list shape, program tuple up to thread symmetry); evaluations = schedules executed on the real sync::Arena; transitions = scheduling events; states = distinct (memory image, header, per-thread progress, running thread) at choice points (scheduling points with more than one enabled thread); non-trivial = at least one switch inside an operation, distinct by (harness, final image)");
   run.assume("sequentially consistent interleavings only; spurious compare_exchange_weak failures not injected");
   run.assume("Backoff replaced by a reporting shim; snooze treated as a voluntary yield; a thread is parked only after a loop iteration that overlapped no memory-changing access");
   run.finish()
